@@ -190,12 +190,48 @@ def run(name, dom, rows, params, seed, forced=None, iters_cap=40):
     return rec, out
 
 
+def ref_cdp_delta(rho, eps):
+    """the published bound (Canonne-Kamath-Steinke, Prop. 12), minimised over the Renyi order by golden-section search on a log grid -
+    written here independently of mechanisms/cdp2adp.py, which is code under test"""
+    if rho <= 0:
+        return 0.0
+    import math
+
+    def f(a):
+        return ((a - 1) * (a * rho - eps) + a * math.log1p(-1 / a)) - math.log(a - 1)
+    lo, hi = math.log(1e-9), math.log(1e9)       # alpha - 1 on a log scale
+    g = (math.sqrt(5) - 1) / 2
+    c, d = hi - g * (hi - lo), lo + g * (hi - lo)
+    for _ in range(200):
+        if f(1 + math.exp(c)) < f(1 + math.exp(d)):
+            hi = d
+        else:
+            lo = c
+        c, d = hi - g * (hi - lo), lo + g * (hi - lo)
+    return min(1.0, math.exp(f(1 + math.exp((lo + hi) / 2))))
+
+
+def ref_cdp_rho(eps, delta):
+    """largest rho whose implied delta at eps does not exceed the target (0 for delta = 0: no Gaussian release is (eps, 0)-DP)"""
+    if delta <= 0:
+        return 0.0
+    if delta >= 1:
+        return float('inf')
+    lo, hi = 0.0, eps + 1.0
+    for _ in range(200):
+        mid = (lo + hi) / 2
+        if ref_cdp_delta(mid, eps) <= delta:
+            lo = mid
+        else:
+            hi = mid
+    return lo
+
+
 def budget(name, params):
-    """(kind, amount): zCDP rho implied by (eps, delta), or pure eps for Laplace MWEM"""
-    C = mechs.load('cdp2adp')
+    """(kind, amount): zCDP rho implied by (eps, delta), or pure eps for Laplace MWEM; computed by the reference conversion above"""
     if name == 'mwem' and params.get('noise') == 'laplace':
         return 'eps', params['epsilon']
-    return 'rho', C.cdp_rho(params['epsilon'], params['delta'])
+    return 'rho', ref_cdp_rho(params['epsilon'], params['delta'])
 
 
 def charges(ev_d, ev_n, laplace_pure=False):
